@@ -7,6 +7,7 @@ import "strings"
 // decimals and exponent forms.
 
 var hostileWords = []string{
+	"010", "0x1F", "0b11", "0o17", "02134", "-010", "00", "08", "1e+5", "9007199254740993",
 	"a", "foo", "x_y", "NaN", "nan", "inf", "Inf", "Infinity", "-inf", "1e5", "1e-5", "1e400", "0x1p-2", "1_000", "007", "-0", "-0.0", "5.0", "0.001", "0.005", "1.005",
 	"2.675", "123456789.125", "1e21", "1e-7", "100000", "1000000", "9223372036854775807", "9223372036854775808", "-9223372036854775808", "-9223372036854775809",
 	"3.14159", "0.1", "12.50", "-7", "+7", "w*", "*", "?", "a?c", "*a*", "foo_*", "a%b", "a_b", "(b|d)", "a\\*", "a\\?", "a\\\\b", "a\\:b", "a\\ b", "\\-a", "a\\",
@@ -14,6 +15,7 @@ var hostileWords = []string{
 }
 
 var hostileQuoted = []string{
+	`"x', 'y"`, `", 'z"`, `"a', 'b', 'c"`, `"x'' OR ''1''=''1"`, `"x''y"`, `"''"`, `"C:\tmp\"`, `"\"`, `"a\\"`,
 	`""`, `"*"`, `"a b"`, `"a*b"`, `"a?b"`, `"/re/"`, `"x:y"`, `"AND"`, `"a'b"`, `"a''b"`, `"a\b"`, `"a\\b"`, `"x,y"`, `"a;b--"`, `"/*x*/"`, `"$$"`, `"E'x'"`, `"5"`, `"5.0"`, `"NaN"`,
 	`"é日"`, `"a` + "\n" + `b"`, `"a` + "\t" + `b"`, `"%!"`, `"a` + "\x00" + `b"`, `"a` + "\xff" + `b"`, `"(b|d)"`, `"a_b"`, `"a%b"`, `'single'`, `'a b'`, `"it's"`,
 	`"` + strings.Repeat("n", 63) + `"`, `"` + strings.Repeat("n", 64) + `"`, `"` + strings.Repeat("é", 40) + `"`,
